@@ -28,6 +28,10 @@ pub fn gen_headers(rng: &mut StdRng, max: usize) -> Headers {
         let val = match rng.gen_range(0..10) {
             0 => String::new(),
             1 => "ü".repeat(rng.gen_range(1..200)),
+            3 => {
+                let sweep = rng.gen_range(0..4096);
+                super::c06::hostile_text(rng, sweep, "")
+            }
             2 => {
                 let l = rng.gen_range(1_000..70_000);
                 (0..l).map(|j| (b'a' + (j % 26) as u8) as char).collect()
@@ -51,6 +55,11 @@ pub fn gen_route(rng: &mut StdRng) -> String {
         4 => "no-leading-slash".into(),
         5 => format!("/{}", "x".repeat(rng.gen_range(100..5000))),
         6 => "/a//b/../c%2F\0".into(),
+        7 => {
+            // any mix of 1-4 byte UTF-8 sequences, a wide character across every byte offset < 300
+            let sweep = rng.gen_range(0..4096);
+            super::c06::hostile_text(rng, sweep, "/")
+        }
         _ => format!("/r{}", rng.gen::<u32>()),
     }
 }
